@@ -626,6 +626,32 @@ func w3Gen(r *rand.Rand, prop, tier string) *simrt.Case {
 				}
 			}
 		}
+		if r.IntN(5) == 0 {
+			// a broker comes back under its own id while the key of its previous life still exists, takes
+			// the lease over again, and lives on for longer than the old session's TTL; others keep asking
+			p, q := int64(r.IntN(2)), int64(r.IntN(2))
+			ttl := cfg["lease_ttl_s"] * 1000
+			c.Program = append(c.Program, simrt.Op{Actor: 0, Kind: "acquire-p", A: p, B: q}, simrt.Op{Actor: 0, Kind: "restart", C: int64(r.IntN(300))}, simrt.Op{Actor: 0, Kind: "acquire-p", A: p, B: q})
+			c.Program = append(c.Program, simrt.Op{Actor: 0, Kind: "sleep", A: ttl + 1500}, simrt.Op{Actor: 0, Kind: "acquire-p", A: p, B: q}, simrt.Op{Actor: 0, Kind: "sleep", A: 2000})
+			for i := 0; i < 6; i++ {
+				c.Program = append(c.Program, simrt.Op{Actor: 1, Kind: "sleep", A: ttl/3 + int64(r.IntN(500))}, simrt.Op{Actor: 1, Kind: "acquire-p", A: p, B: q})
+			}
+		}
+		if r.IntN(5) == 0 {
+			// the server ends a broker's session while the broker keeps acquiring other partitions: the
+			// acquisitions race with the broker's own notice that its session is gone
+			p, q := int64(r.IntN(2)), int64(r.IntN(2))
+			ttl := cfg["lease_ttl_s"] * 1000
+			// ... and the goroutine that takes that notice may itself be slow to get scheduled
+			c.Faults = append(c.Faults, simrt.Fault{Kind: "sched.stall", Op: "sched.lock", Key: "monitorSession", Nth: r.IntN(2), Count: 1 + r.IntN(2), Arg: int64(50+r.IntN(3000)) * 1e6})
+			c.Program = append(c.Program, simrt.Op{Actor: 0, Kind: "acquire-p", A: p, B: q}, simrt.Op{Actor: 0, Kind: "expire-now"})
+			for i := 0; i < 30; i++ {
+				c.Program = append(c.Program, simrt.Op{Actor: 0, Kind: "sleep", A: int64(20 + r.IntN(int(ttl/15)+1))}, simrt.Op{Actor: 0, Kind: "acquire-p", A: 1 - p, B: int64(i % 2)})
+			}
+			for i := 0; i < 8; i++ {
+				c.Program = append(c.Program, simrt.Op{Actor: 1, Kind: "sleep", A: ttl/4 + int64(r.IntN(300))}, simrt.Op{Actor: 1, Kind: "acquire-p", A: p, B: q})
+			}
+		}
 		faults("etcd.unavail", "etcd.timeout_applied", "etcd.drop_keepalive.unavail", "etcd.partition.unavail", "etcd.slow")
 	}
 	return c
